@@ -54,6 +54,20 @@ for line in sys.stdin:
 				for other in (y, b, tb_):
 					out += ' %d%d%d%d' % (x == other, x != other, x < other, x > other)
 			print(out)
+		elif parts[0] == 'a':
+			# the instant handed over as a time-zone-aware datetime (several offsets) and as a naive UTC one: text and instant
+			import datetime as _dt
+			t = int(parts[1])
+			out = []
+			for off in (0, 120, -330, 765, 840, -720):
+				dt = _dt.datetime(1970, 1, 1, tzinfo=_dt.timezone.utc) + _dt.timedelta(seconds=t)
+				dt = dt.astimezone(_dt.timezone(_dt.timedelta(minutes=off)))
+				d = Date(dt)
+				out.append('%s:%d:%d' % (bytes(d).hex(), int(d), d == t))
+			n = _dt.datetime(1970, 1, 1) + _dt.timedelta(seconds=t)
+			d = Date(n)
+			out.append('%s:%d:%d' % (bytes(d).hex(), int(d), d == t))
+			print(' '.join(out))
 		elif parts[0] == 'h':
 			# the text as the value of each date-carrying header field: the instant the element stands for
 			from httoop import Headers
